@@ -331,6 +331,80 @@ def _datetime_params(fn: FuncInfo) -> list[tuple[int, str]]:
     return out
 
 
+ROLE_HINTS = {"update_gaps": "_update_gaps", "remove_gap": "_remove_gap", "cleanup_gaps": "_cleanup_gaps",
+              "fill": "_fill_gaps", "fetch": "_wrapped_buffer_window"}
+
+
+def _roles(prog: Program) -> dict[str, str]:
+    """The private methods of OrderedRingBuffer the rules anchor on, bound by the role they play (who calls them
+    with what); their names are only a hint to choose between several candidates:
+      fetch         called from window() with the ring (`self._buffer`) as first argument and two slot positions
+      fill          called from window() with the public `fill_value` and the gap list
+      update_gaps   called from update() with three arguments, writes the gap list but neither data nor bounds
+      remove_gap    called from update_gaps with its timestamp parameter only, writes the gap list
+      cleanup_gaps  called from update_gaps without arguments, writes the gap list
+    A role nobody plays is an AnalysisError (exit 2)."""
+    cached = prog.__dict__.get("_c09_roles")
+    if cached is not None:
+        return cached
+    cls = prog.cls(f"{BUF}:OrderedRingBuffer")
+    summ = MutationSummary(prog, cls)
+
+    def private_calls(fn: FuncInfo, depth: int = 2, seen: tuple[str, ...] = ()) -> list[tuple[ast.Call, FuncInfo]]:
+        out = []
+        for c in walk_no_nested(fn.node):
+            if isinstance(c, ast.Call) and isinstance(c.func, ast.Attribute) and isinstance(c.func.value, ast.Name) \
+                    and c.func.value.id in ("self", cls.name) and c.func.attr.startswith("_") \
+                    and not c.func.attr.startswith("__"):
+                m = prog.resolve_method(cls, c.func.attr)
+                if m is not None:
+                    out.append((c, m))
+                    if depth > 0 and m.name not in seen and m.name != fn.name:
+                        out.extend(private_calls(m, depth - 1, seen + (fn.name,)))
+        return out
+
+    def pick(role: str, cands: list[str]) -> str:
+        names = sorted(set(cands))
+        if ROLE_HINTS[role] in names or (not names and ROLE_HINTS[role] in cls.methods):
+            return ROLE_HINTS[role]
+        if len(names) == 1:
+            return names[0]
+        raise AnalysisError(f"C09: {'no' if not names else 'more than one'} private method of OrderedRingBuffer plays the "
+                            f"role `{role}` ({names})")
+
+    def arg_texts(c: ast.Call) -> list[str]:
+        return [u(a) for a in c.args] + [u(k.value) for k in c.keywords]
+
+    up, wn = cls.methods.get("update"), cls.methods.get("window")
+    if up is None or wn is None:
+        raise AnalysisError("OrderedRingBuffer.update / window not found")
+    roles: dict[str, str] = {}
+    in_window = private_calls(wn, 1)
+    roles["fetch"] = pick("fetch", [m.name for c, m in in_window if c.args and u(c.args[0]) == "self._buffer"
+                                    and len(arg_texts(c)) >= 3])
+    roles["fill"] = pick("fill", [m.name for c, m in in_window if "fill_value" in arg_texts(c)
+                                  and {"self.gaps", "self._gaps"} & set(arg_texts(c))])
+    roles["update_gaps"] = pick("update_gaps", [
+        m.name for c, m in private_calls(up, 1) if len(arg_texts(c)) == 3
+        and "_gaps" in summ.of_method(m.name) and not summ.of_method(m.name) & {"_buffer", "_timestamp_newest", "_timestamp_oldest"}])
+    ug = cls.methods[roles["update_gaps"]]
+    ts = func_params(ug.node)[0] if func_params(ug.node) else ""
+    inner = [(c, m) for c, m in private_calls(ug, 1) if "_gaps" in summ.of_method(m.name) and m.name != ug.name]
+    roles["remove_gap"] = pick("remove_gap", [m.name for c, m in inner if arg_texts(c) == [ts]])
+    roles["cleanup_gaps"] = pick("cleanup_gaps", [m.name for c, m in inner if not arg_texts(c)])
+    prog.__dict__["_c09_roles"] = roles
+    prog.__dict__["_c09_keep"] = set(roles.values())
+    return roles
+
+
+def _role(prog: Program, role: str) -> str:
+    return _roles(prog)[role]
+
+
+def _role_func(prog: Program, role: str) -> FuncInfo:
+    return prog.func(f"{BUF}:OrderedRingBuffer.{_role(prog, role)}")
+
+
 def check_norm(run: Run, prog: Program) -> None:
     cls = prog.cls(f"{BUF}:OrderedRingBuffer")
     PRIVATE_ALIGNED.clear()
@@ -341,7 +415,7 @@ def check_norm(run: Run, prog: Program) -> None:
             if idx:
                 PRIVATE_ALIGNED[name] = idx
                 PRIVATE_PARAMS[name] = func_params(m.node)
-    strict = {"_fill_gaps", "_update_gaps", "_remove_gap"}
+    strict = {_role(prog, "fill"), _role(prog, "update_gaps"), _role(prog, "remove_gap")}
     if not strict <= set(PRIVATE_ALIGNED):
         raise AnalysisError(f"C09.NORM: private slot-arithmetic methods moved: {sorted(PRIVATE_ALIGNED)}")
 
@@ -612,8 +686,8 @@ def check_valid_window(run: Run, prog: Program) -> None:  # noqa: C901
     run.analysed(wn.qual)
     paths = ordered_paths(prog, wn)
     through = _through_normalize(prog)
-    p_start, p_end = _param(prog, "_wrapped_buffer_window", 1), _param(prog, "_wrapped_buffer_window", 2)
-    f_data, f_fill, f_origin, f_gaps = (_param(prog, "_fill_gaps", i) for i in range(4))
+    p_start, p_end = _param(prog, _role(prog, "fetch"), 1), _param(prog, _role(prog, "fetch"), 2)
+    f_data, f_fill, f_origin, f_gaps = (_param(prog, _role(prog, "fill"), i) for i in range(4))
     fv = "fill_value"
     if fv not in wn.params:
         raise AnalysisError(f"{wn.qual}: public parameter fill_value not found")
@@ -623,7 +697,7 @@ def check_valid_window(run: Run, prog: Program) -> None:  # noqa: C901
     upper = {f"self.newest_timestamp + {STEP}"}
     n = 0
     for p in paths:
-        ws = p.calls(lambda c: method_call(c, None, "_wrapped_buffer_window"))
+        ws = p.calls(lambda c: method_call(c, None, _role(prog, "fetch")))
         if not ws:
             if p.calls(lambda c: method_call(c, "self", "to_internal_index")):
                 raise AnalysisError(f"{wn.qual}: slot positions computed on a path without a data fetch")
@@ -662,7 +736,7 @@ def check_valid_window(run: Run, prog: Program) -> None:  # noqa: C901
             continue
         ok = decided(p, ("is", frozenset({fv, "None"}))) is True
         if not ok:
-            for f in p.calls(lambda c: method_call(c, "self", "_fill_gaps")):
+            for f in p.calls(lambda c: method_call(c, "self", _role(prog, "fill"))):
                 if index_of(p, f) < wpos:
                     continue
                 fa = _bound_args(prog, f.node)  # type: ignore[arg-type]
@@ -790,7 +864,7 @@ def check_gaps(run: Run, prog: Program) -> None:
 
 def check_gap_bounds(run: Run, prog: Program) -> None:  # noqa: C901
     """C09.GAP: forward jumps mark every skipped slot; gap filling writes only inside the window."""
-    fn = prog.func(f"{BUF}:OrderedRingBuffer._update_gaps")
+    fn = _role_func(prog, "update_gaps")
     run.analysed(fn.qual)
     ts, newest, rec = fn.params[1], fn.params[2], fn.params[3]
     first_unwritten = f"{newest} + {STEP}"
@@ -824,7 +898,7 @@ def check_gap_bounds(run: Run, prog: Program) -> None:  # noqa: C901
     run.check(missing_recorded > 0, "C09.GAP", fn.qual, "missing sample -> gap recorded",
               "a missing (None/NaN) sample is not recorded as a gap", node=fn.node, file=fn.file)
     # _fill_gaps writes only inside [0, len(data)]
-    fg = prog.func(f"{BUF}:OrderedRingBuffer._fill_gaps")
+    fg = _role_func(prog, "fill")
     run.analysed(fg.qual)
     data = fg.params[1]
     fpaths = ordered_paths(prog, fg)
@@ -962,7 +1036,7 @@ def check_store(run: Run, prog: Program) -> None:  # noqa: C901
     t_norm = f"self.normalize_timestamp({sample}.timestamp)"
     has = f"self.has_value({sample})"
     summ = MutationSummary(prog, _ring(prog))
-    g_ts, g_newest, g_rec = (_param(prog, "_update_gaps", i) for i in range(3))
+    g_ts, g_newest, g_rec = (_param(prog, _role(prog, "update_gaps"), i) for i in range(3))
     n = 0
     for p in ordered_paths(prog, up):
         if p.exit == "raise":
@@ -977,7 +1051,7 @@ def check_store(run: Run, prog: Program) -> None:  # noqa: C901
         newest_w = [w for w in ws if u(w[1]) == NEWEST_F]
         oldest_w = [w for w in ws if u(w[1]) == OLDEST_F]
         data_w = [w for w in ws if isinstance(w[1], ast.Subscript) and u(w[1].value) == "self._buffer"]
-        gap_c = [(index_of(p, e), e) for e in p.calls(lambda c: method_call(c, "self", "_update_gaps"))]
+        gap_c = [(index_of(p, e), e) for e in p.calls(lambda c: method_call(c, "self", _role(prog, "update_gaps")))]
         # newest bound
         v_new = newest_w[-1][2] if newest_w else _ast(NEWEST_F)
         ok = len(newest_w) <= 1 and is_extreme_of(p, v_new, NEWEST_F, t_norm, True, newest_w[-1][0] if newest_w else None)
@@ -1029,7 +1103,7 @@ def check_store(run: Run, prog: Program) -> None:  # noqa: C901
 def check_fetch(run: Run, prog: Program) -> None:  # noqa: C901
     """C09.FETCH: _wrapped_buffer_window returns buffer[s:e], or buffer[s:] ++ buffer[:e] when e <= s
     (the ring wraps), as a copy when asked."""
-    fw = prog.func(f"{BUF}:OrderedRingBuffer._wrapped_buffer_window")
+    fw = _role_func(prog, "fetch")
     run.analysed(fw.qual)
     b, s, e, fc = func_params(fw.node)[:4]
 
@@ -1231,8 +1305,8 @@ def check_count(run: Run, prog: Program) -> None:  # noqa: C901
         raise AnalysisError(f"{cv.qual}: only {n} returning paths")
 
 
-NONE_SCOPE = ["update", "window", "get_timestamp", "_covered_time_range", "to_internal_index", "_update_gaps",
-              "_remove_gap", "oldest_timestamp", "newest_timestamp", "count_valid"]
+NONE_SCOPE = ["update", "window", "get_timestamp", "to_internal_index", "oldest_timestamp", "newest_timestamp",
+              "count_valid", "count_covered"]
 
 
 def _uses(x: ast.AST, text: str) -> bool:
@@ -1259,7 +1333,8 @@ def _uses(x: ast.AST, text: str) -> bool:
 def check_none(run: Run, prog: Program) -> None:
     """C09.NONE: a value a path has established to be None is not used afterwards on that path (an inverted
     `assert x is not None` / `if x is None` makes every regular call fail or compute with None)."""
-    fns = [prog.func(f"{BUF}:OrderedRingBuffer.{m}") for m in NONE_SCOPE] + [prog.func(f"{MW}:MovingWindow.at")]
+    fns = [prog.func(f"{BUF}:OrderedRingBuffer.{m}") for m in NONE_SCOPE] + [prog.func(f"{MW}:MovingWindow.at")] \
+        + [_role_func(prog, "update_gaps"), _role_func(prog, "remove_gap")]
     n = 0
     for fn in fns:
         run.analysed(fn.qual)
@@ -1286,7 +1361,7 @@ def check_none(run: Run, prog: Program) -> None:
     _floor(run, None, n >= 3, f"C09.NONE: only {n} None-establishing paths found")
 
 
-def _gap_ops(p: Path) -> dict[str, list[tuple[int, Any]]]:
+def _gap_ops(p: Path, prog: Program) -> dict[str, list[tuple[int, Any]]]:
     """Operations on the gap list on this path: Gap list assignments, appended gaps, removals, clean-ups."""
     ops: dict[str, list[tuple[int, Any]]] = {"assign": [], "append": [], "remove": [], "cleanup": [], "other": []}
     for i, e in enumerate(p.effects):
@@ -1300,9 +1375,9 @@ def _gap_ops(p: Path) -> dict[str, list[tuple[int, Any]]]:
             assert isinstance(c, ast.Call)
             if method_call(c, "self._gaps", "append") and len(c.args) == 1:
                 ops["append"].append((i, c.args[0]))
-            elif method_call(c, "self", "_remove_gap"):
+            elif method_call(c, "self", _role(prog, "remove_gap")):
                 ops["remove"].append((i, c))
-            elif method_call(c, "self", "_cleanup_gaps"):
+            elif method_call(c, "self", _role(prog, "cleanup_gaps")):
                 ops["cleanup"].append((i, c))
             elif isinstance(c.func, ast.Attribute) and self_attr_root(c.func.value) == "_gaps" \
                     and c.func.attr in ("extend", "insert", "remove", "pop", "clear", "sort", "reverse"):
@@ -1319,7 +1394,7 @@ def _gap_is(g: ast.AST | None, start: Any, end: Any) -> bool:
 
 def check_gap_cases(run: Run, prog: Program) -> None:  # noqa: C901
     """C09.GAP: the case analysis of _update_gaps (which gaps a sample creates / removes) per path."""
-    fn = prog.func(f"{BUF}:OrderedRingBuffer._update_gaps")
+    fn = _role_func(prog, "update_gaps")
     run.analysed(fn.qual)
     ts, newest, rec = fn.params[1], fn.params[2], fn.params[3]
     first_unwritten = f"{newest} + {STEP}"
@@ -1330,7 +1405,7 @@ def check_gap_cases(run: Run, prog: Program) -> None:  # noqa: C901
             continue
         n += 1
         where = _where(fn, p)
-        ops = _gap_ops(p)
+        ops = _gap_ops(p, prog)
         missing, found = truth(p, rec), truth(p, f"self.is_missing({ts})")
         reset = False
         what, ok = "", True
@@ -1452,7 +1527,7 @@ def _gap_lookup(p: Path, ts: str) -> tuple[str, set[str], bool] | None:
 def check_remove_gap(run: Run, prog: Program) -> None:  # noqa: C901
     """C09.GAP: _remove_gap(T) turns the gap [s, e) that contains T into [s, T) and [T + period, e), dropping empty
     pieces, and touches nothing else."""
-    fn = prog.func(f"{BUF}:OrderedRingBuffer._remove_gap")
+    fn = _role_func(prog, "remove_gap")
     run.analysed(fn.qual)
     ts = fn.params[1]
     after = f"{ts} + {STEP}"
@@ -1468,7 +1543,7 @@ def check_remove_gap(run: Run, prog: Program) -> None:  # noqa: C901
                           "not examine whether there is one", **where)
             continue
         g, idx_texts, found = look
-        ops = _gap_ops(p)
+        ops = _gap_ops(p, prog)
         ws = writes(p)
         if not found:
             run.check(not ws and not any(ops.values()), "C09.GAP", fn.qual, "no gap contains T: nothing to do",
@@ -1540,7 +1615,7 @@ def check_cleanup(run: Run, prog: Program) -> None:  # noqa: C901
     its successor dropped only if contained or after being merged into it, merged only if it overlaps or
     touches), makes progress (changes the list xor advances by one) and advances only past a gap that needs
     nothing.  (That the result is then sorted and disjoint is the inductive part and stays undecided.)"""
-    fn = prog.func(f"{BUF}:OrderedRingBuffer._cleanup_gaps")
+    fn = _role_func(prog, "cleanup_gaps")
     run.analysed(fn.qual)
     gaps = "self._gaps"
     paths = ordered_paths(prog, fn)
@@ -1636,7 +1711,7 @@ def check_cleanup(run: Run, prog: Program) -> None:  # noqa: C901
 def check_fill_stores(run: Run, prog: Program) -> None:
     """C09.GAP: inside _fill_gaps every gap with a non-empty clamped slot range is written, with exactly as many
     fill values as the range has slots, in the container's own way."""
-    fg = prog.func(f"{BUF}:OrderedRingBuffer._fill_gaps")
+    fg = _role_func(prog, "fill")
     run.analysed(fg.qual)
     data, fill = fg.params[1], fg.params[2]
     body = loop_paths(ordered_paths(prog, fg), fg.qual)
@@ -1683,8 +1758,8 @@ def check_window_cases(run: Run, prog: Program) -> None:  # noqa: C901
     fv, fc = "fill_value", "force_copy"
     if fv not in wn.params or fc not in wn.params:
         raise AnalysisError(f"{wn.qual}: public parameters fill_value / force_copy not found")
-    p_start, p_end = _param(prog, "_wrapped_buffer_window", 1), _param(prog, "_wrapped_buffer_window", 2)
-    p_fc = _param(prog, "_wrapped_buffer_window", 3)
+    p_start, p_end = _param(prog, _role(prog, "fetch"), 1), _param(prog, _role(prog, "fetch"), 2)
+    p_fc = _param(prog, _role(prog, "fetch"), 3)
     paths = ordered_paths(prog, wn)
     is_dt = lambda p, x: truth(p, f"isinstance({x}, datetime)")  # noqa: E731
     pairs: set[tuple[str, str]] = set()
@@ -1714,12 +1789,12 @@ def check_window_cases(run: Run, prog: Program) -> None:  # noqa: C901
 
     fetch = 0
     for p in paths:
-        for w in p.calls(lambda c: method_call(c, None, "_wrapped_buffer_window")):
+        for w in p.calls(lambda c: method_call(c, None, _role(prog, "fetch"))):
             a = _bound_args(prog, w.node)  # type: ignore[arg-type]
             pairs.add((u(_index_arg(prog, a.get(p_start), "self", wn.qual)),
                        u(_index_arg(prog, a.get(p_end), "self", wn.qual))))
     for p in paths:
-        ws = p.calls(lambda c: method_call(c, None, "_wrapped_buffer_window"))
+        ws = p.calls(lambda c: method_call(c, None, _role(prog, "fetch")))
         where = _where(wn, p)
         ks, ke = is_dt(p, start), is_dt(p, end)
         if ws:
@@ -1739,7 +1814,7 @@ def check_window_cases(run: Run, prog: Program) -> None:  # noqa: C901
                       "a query by index is not first projected on the covered range (None, negative and out-of-range "
                       "indices) and then converted to timestamps, or a query by datetime is converted: the query "
                       f"fails or addresses other slots (start datetime: {ks}, end datetime: {ke})", **where)
-            if p.calls(lambda c: method_call(c, "self", "_fill_gaps")):
+            if p.calls(lambda c: method_call(c, "self", _role(prog, "fill"))):
                 c = a.get(p_fc)
                 ok = (isinstance(c, ast.Constant) and c.value is True) or (c is not None and truth(p, u(c)) is True)
                 run.check(ok, "C09.VALID", wn.qual, "fill only a copy (force_copy established true)",
